@@ -161,7 +161,13 @@ def run_selftest(pid, root, seed, jobs=None):
             else:
                 transform_tree(tmp, rename=rename)
             try:
-                code, rep = run_property(pid, tmp, "quick", 0, write=False, quiet=True)
+                # the replay rules interpret the transformed package like any other; their smallest matrix is enough here
+                os.environ["TSVERIF_REPLAY"], os.environ["TSVERIF_SOLVER_REPLAY"] = "light", "light"
+                try:
+                    code, rep = run_property(pid, tmp, "quick", 0, write=False, quiet=True)
+                finally:
+                    os.environ.pop("TSVERIF_REPLAY", None)
+                    os.environ.pop("TSVERIF_SOLVER_REPLAY", None)
                 got = {(r, _strip_suffix(c)) for r, c in _violation_set(rep)}
                 want = {(r, _strip_suffix(c)) for r, c in base}
                 ran += 1
